@@ -10,11 +10,11 @@ On break: harness `oracle` evaluates the property's clauses directly on the real
 import os
 
 THEOREMS = ["IstioModel.C02.Theorems", "IstioModel.C02.QueueTheorems", "IstioModel.C02.QueueRefinement",
-            "IstioModel.C02.DebounceTheorems"]
-STREAMS = ("merge", "queue", "debounce")
+            "IstioModel.C02.DebounceTheorems", "IstioModel.C02.SenderTheorems"]
+STREAMS = ("merge", "queue", "debounce", "sender")
 
 
-def oracle(ctx, stream, case_lines, rep):
+def oracle(ctx, stream, case_lines, rep, only_case=False):
     """Property-level search on the implementation: first the shrunk case, then everything generated."""
     cands = []
     p = os.path.join(ctx.work, "%s.oracle.ops" % stream)
@@ -22,10 +22,10 @@ def oracle(ctx, stream, case_lines, rep):
         f.write("\n".join(case_lines) + "\n")
     cands.append(p)
     g = os.path.join(ctx.work, "%s.gen.ops" % stream)
-    if os.path.exists(g):
+    if os.path.exists(g) and not only_case:
         cands.append(g)
     cdir = os.path.join(os.path.dirname(os.path.dirname(os.path.abspath(__file__))), "harness", "corpus", ctx.pid)
-    if os.path.isdir(cdir):
+    if os.path.isdir(cdir) and not only_case:
         for f in sorted(os.listdir(cdir)):
             if f.startswith(stream + ".") and f.endswith(".ops"):
                 cands.append(os.path.join(cdir, f))
@@ -70,6 +70,105 @@ def oracle_all(ctx, stream):
             ctx.violation(found[0], found[1], found[2], True)
 
 
+def timing_stream(ctx, stream, ncases, attempts=3):
+    """T-diff for the streams that run real goroutines and timers (debounce, sender).  Same contract as
+    ctx.diff_stream, plus: a disagreement only counts when it reproduces - the whole file is run again
+    (up to `attempts` times) and must disagree every time; anything else is recorded as a flake counter.
+    The streams report only schedule-independent facts, so a flake is not expected at all."""
+    from verif import HARNESS
+    st = {"cases": 0, "ops": 0, "agree": True}
+    ctx.streams[stream] = st
+    files = []
+    cdir = os.path.join(HARNESS, "corpus", ctx.pid)
+    if os.path.isdir(cdir):
+        for f in sorted(os.listdir(cdir)):
+            if f.startswith(stream + ".") and f.endswith(".ops"):
+                files.append(("corpus:" + f, os.path.join(cdir, f)))
+    if ncases > 0:
+        ops = os.path.join(ctx.work, "%s.gen.ops" % stream)
+        if os.path.exists(ops):
+            os.remove(ops)
+        rc, out = ctx.harness("gen", stream, ctx.seed, ncases, ops)
+        if rc != 0 or not os.path.exists(ops):
+            ctx.tie_broken("harness-gen:" + stream, out)
+            st["agree"] = False
+            return False
+        files.append(("generated", ops))
+    all_ok = True
+    for tag, ops in files:
+        mism, ran = None, False
+        for attempt in range(attempts):
+            ok, impl, model, log = ctx.run_pair(stream, ops, "run")
+            if not ok:
+                mism = None
+                continue
+            ran = True
+            nc, nops, mism = ctx.compare(stream, ops, impl, model)
+            if mism is None:
+                break
+            ctx.log("stream %s (%s) attempt %d: differs at case %d op %d\n   impl : %s\n   model: %s"
+                    % (stream, tag, attempt + 1, mism.case_no, mism.line_in_case, mism.impl_line, mism.model_line))
+            # does this one case disagree again when run alone, twice?
+            rp = os.path.join(ctx.work, "%s.repro.ops" % stream)
+            with open(rp, "w") as f:
+                f.write("\n".join(mism.case_lines) + "\n")
+            again = 0
+            for _ in range(2):
+                ok3, impl3, model3, _l = ctx.run_pair(stream, rp, "repro")
+                if ok3 and ctx.compare(stream, rp, impl3, model3)[2] is not None:
+                    again += 1
+            if again == 2:
+                break
+            ctx.count("%s.not-reproduced" % stream)
+        if not ran:
+            ctx.tie_broken("stream-run:%s" % stream, log, {"ops_file": tag})
+            st["agree"] = False
+            all_ok = False
+            continue
+        st["cases"] += nc
+        st["ops"] += nops
+        ctx.account(stream, ops, impl)
+        if mism is None:
+            continue
+        all_ok = False
+        st["agree"] = False
+        os.environ["C02_PATIENCE_MS"] = "2000"  # the case already failed reproducibly; do not wait 10 s per probe
+        try:
+            small = ctx.shrink(stream, mism.case_lines, max_rounds=40)
+        finally:
+            os.environ.pop("C02_PATIENCE_MS", None)
+        p = os.path.join(ctx.work, "%s.min.ops" % stream)
+        with open(p, "w") as f:
+            f.write("\n".join(small) + "\n")
+        ok2, impl2, model2, _ = ctx.run_pair(stream, p, "min")
+        m2 = ctx.compare(stream, p, impl2, model2)[2] if ok2 else None
+        rep = (m2 or mism).to_json()
+        rep["source"] = tag
+        found = oracle(ctx, stream, small, rep)
+        if found:
+            ctx.violation(found[0], found[1], found[2], True)
+        else:
+            ctx.tie_broken("correspondence:%s" % stream,
+                           "model and implementation disagree on stream %s (reproduced %d times); the property oracle found no failing input"
+                           % (stream, attempts), rep)
+    ctx.log("stream %s: %d cases, %d ops, %s" % (stream, st["cases"], st["ops"], "agree" if all_ok else "DIFFER"))
+    return all_ok
+
+
+def robust(ctx, fn, *a, **kw):
+    """harness/bin is shared with the checks of other properties running concurrently; if our binary
+    disappears under us, rebuild it and run the step again (a machinery hiccup, not a verdict)."""
+    for _ in range(3):
+        try:
+            return fn(*a, **kw)
+        except FileNotFoundError as e:
+            ctx.log("harness binary vanished (%s); rebuilding and repeating the step" % e)
+            ctx.count("harness.rebuilt")
+            if not ctx.go_build():
+                return None
+    return fn(*a, **kw)
+
+
 def run(ctx):
     ctx.rule = ("merge: cases = 2-4 PushRequest objects over shared/unshared/nil/empty map objects (7 config keys, 4 addresses, "
                 "3 waypoints, 5 reasons incl. zero counts), then 1-5 Merge/CopyMerge/ReasonStats.CopyMerge calls incl. nil "
@@ -86,12 +185,14 @@ def run(ctx):
     if not ctx.go_build():
         return
     ctx.trusted.append("pilot/pkg/xds/zz_verif_c02.go (verif-tagged read-only snapshot of PushQueue tables; entry points to debounce / doSendPushes)")
-    ctx.diff_stream("merge", ctx.n(4000, 100000), oracle=oracle)
-    ctx.diff_stream("queue", ctx.n(1500, 40000), oracle=oracle)
-    # real timers: compared up to batching only (see harness/c02/debounce.go); small on purpose
-    ctx.diff_stream("debounce", ctx.n(120, 1500), oracle=oracle)
+    robust(ctx, ctx.diff_stream, "merge", ctx.n(4000, 100000), oracle=oracle)
+    robust(ctx, ctx.diff_stream, "queue", ctx.n(1500, 40000), oracle=oracle)
+    # real timers / goroutines: only schedule-independent facts are compared (see harness/c02/debounce.go,
+    # sender.go); small on purpose
+    robust(ctx, timing_stream, ctx, "debounce", ctx.n(120, 1500))
+    robust(ctx, timing_stream, ctx, "sender", ctx.n(120, 1500))
     for stream in STREAMS:
-        oracle_all(ctx, stream)
+        robust(ctx, oracle_all, ctx, stream)
     if not proved and not ctx.violations:
         pass  # finish() reports the broken proof; the oracle already searched every generated case
 
@@ -112,7 +213,7 @@ def replay(ctx, path):
         f.write("\n".join(ops) + "\n")
     ok, impl, model, log = ctx.run_pair(stream, p, "replay")
     m = ctx.compare(stream, p, impl, model)[2] if ok else None
-    found = oracle(ctx, stream, ops, m.to_json() if m else None)
+    found = oracle(ctx, stream, ops, m.to_json() if m else None, only_case=True)
     if found:
         ctx.violation(found[0], found[1], found[2], True)
     elif m is not None:
